@@ -110,7 +110,15 @@ pub fn arb_case() -> impl Strategy<Value = Case> {
         4 => (0u8..4, proptest::collection::vec(0u8..3, 1..3), any::<bool>()).prop_map(|(user, pols, accept)| Op::Assign { user, pols, accept }),
         4 => (0u8..3, any::<bool>(), any::<bool>(), proptest::collection::vec(0u8..4, 0..3)).prop_map(|(p, preserve, all, stmts)| Op::DeletePolicy { p, preserve, all, stmts }),
     ];
-    proptest::collection::vec(op, 1..14).prop_map(|ops| Case { ops })
+    // in most cases a policy is created and given to a neighbour first, so that later requests meet a policy
+    // that only a neighbour's assignment references
+    (proptest::option::weighted(0.6, (0u8..3, proptest::collection::vec(0u8..4, 1..3), 0u8..2, any::<bool>())), proptest::collection::vec(op, 1..14)).prop_map(|(lead, mut ops)| {
+        if let Some((p, stmts, user, accept)) = lead {
+            ops.insert(0, Op::Assign { user, pols: vec![p], accept });
+            ops.insert(0, Op::AddPolicy { p, stmts });
+        }
+        Case { ops }
+    })
 }
 
 pub fn replay(case: &Value) -> Result<CheckResult, String> {
